@@ -669,8 +669,9 @@ fn create_ask(cx: &Ctx, id: &str, base: &str, quote: &str, price: &str, size: u1
         return refuse("id_in_use");
     }
     // price*size is integral in every coherent configuration (C13); abstain otherwise
+    // (an ask states no quote size, so its total need not fit anything; only integrality matters)
     match p.mul_int(u(size)) {
-        Some(t) if t.is_integral() && t.representable() => {}
+        Some(t) if t.is_integral() => {}
         _ => return dont("ask_total_domain"),
     }
     let class = if base == cfg.base_denom {
